@@ -20,7 +20,7 @@ from concurrent.futures import ThreadPoolExecutor
 REPO = os.environ.get("SQ_REPO", "/repo")
 VERIF = os.path.dirname(os.path.dirname(os.path.dirname(os.path.abspath(__file__))))
 CACHE = os.environ.get("SQ_CACHE", os.path.join(VERIF, ".cache"))
-SQFACTS = os.path.join(VERIF, "build", "sqfacts")
+SQFACTS = os.environ.get("SQ_SQFACTS", os.path.join(VERIF, "build", "sqfacts"))
 EXTRACTOR_SRC = os.path.join(VERIF, "engine", "sqfacts.cc")
 
 # headers whose inline/template functions get full CFG facts in every unit including them
@@ -35,6 +35,16 @@ HDR_CFG = [
 
 SKIP_DIR_PARTS = ("/tests", "/test-suite", "/.libs")
 
+# Overlay mode (thorough tier, checker self-validation): SQ_OVERLAY names a JSON file {absolute source path: replacement file}.
+# The extractor then analyses the program *as if* those files had the replacement content; nothing on disk changes, the main
+# cache is only read (units whose inputs are overlaid are extracted into SQ_OVERLAY_CACHE instead).
+OVERLAY = {}
+if os.environ.get("SQ_OVERLAY"):
+    with open(os.environ["SQ_OVERLAY"]) as _f:
+        OVERLAY = json.load(_f)
+OVERLAY_CACHE = os.environ.get("SQ_OVERLAY_CACHE")
+_prefix_override = {}
+
 
 class AnalysisBroken(Exception):
     """exit 2: the analysis itself cannot be carried out (anchor vanished, parse failure...)"""
@@ -44,6 +54,7 @@ _sha_memo = {}
 
 
 def sha1(path):
+    path = OVERLAY.get(path, path)
     try:
         st = os.stat(path)
     except OSError:
@@ -150,8 +161,10 @@ def unit_flags(src):
     return dir_flags(d, f, lang)
 
 
-def cache_prefix(src):
+def cache_prefix(src, main=False):
     rel = os.path.relpath(src, REPO).replace("/", "__")
+    if not main and src in _prefix_override:
+        return os.path.join(_prefix_override[src], rel)
     return os.path.join(CACHE, rel)
 
 
@@ -185,7 +198,7 @@ def _extract(src, cwdflags):
             os.unlink(pre + suf)
         except OSError:
             pass
-    cmd = [SQFACTS, src, "--out=" + pre, "--root=" + REPO, "--hdr=" + ",".join(HDR_CFG), "--"] + flags
+    cmd = [SQFACTS, src, "--out=" + pre, "--root=" + REPO, "--hdr=" + ",".join(HDR_CFG)] + ["--overlay=%s=%s" % kv for kv in sorted(OVERLAY.items())] + ["--"] + flags
     p = subprocess.run(cmd, cwd=d, stdout=subprocess.PIPE, stderr=subprocess.PIPE, universal_newlines=True)
     if p.returncode != 0 or not os.path.exists(pre + ".idx.jsonl"):
         return (src, False, (p.stderr or "")[-1500:])
@@ -219,11 +232,18 @@ def ensure_facts(units, jobs=16, quiet=False):
             raise AnalysisBroken("anchored unit vanished: " + u)
         fl = unit_flags(u)
         if not _valid(u, fl):
+            if OVERLAY:
+                if not OVERLAY_CACHE:
+                    raise AnalysisBroken("SQ_OVERLAY needs SQ_OVERLAY_CACHE")
+                os.makedirs(OVERLAY_CACHE, exist_ok=True)
+                _prefix_override[u] = OVERLAY_CACHE      # never write overlaid facts into the main cache
+                if _valid(u, fl):
+                    continue
             todo.append((u, fl))
     failed = []
     if todo:
         import fcntl
-        with open(os.path.join(CACHE, ".lock"), "w") as lk:
+        with open(os.path.join(OVERLAY_CACHE if OVERLAY else CACHE, ".lock"), "w") as lk:
             fcntl.flock(lk, fcntl.LOCK_EX)     # one extractor batch at a time (concurrent checks share the cache)
             todo = [(u, fl) for (u, fl) in todo if not _valid(u, fl)]
             with ThreadPoolExecutor(max_workers=jobs) as ex:
